@@ -49,16 +49,16 @@ mod verif_kani_attr {
     // [a=v]
     #[kani::proof] #[kani::unwind(6)]
     fn attr_eq_vs_spec() { with_matcher!(f, m, operand, val, op, { assert!(m.attr_eq(&operand) == eq_cs(val, op, f.ci)); assert!(m.has_attribute(b"a") && !m.has_attribute(b"b")); }) }
-    // [a^=v]: non-empty value starting with v
+    // [a^=v]: v non-empty and the value starts with v   (CSS Selectors 6.2: an empty v represents nothing)
     #[kani::proof] #[kani::unwind(6)]
     fn attr_prefix_vs_spec() { with_matcher!(f, m, operand, val, op, {
         let prefix = f.vl >= f.ol && eq_cs(&val[..f.ol], op, f.ci);
-        assert!(m.has_attr_with_prefix(&operand) == (f.vl > 0 && prefix)); }) }
+        assert!(m.has_attr_with_prefix(&operand) == (f.ol > 0 && prefix)); }) }
     // [a$=v]
     #[kani::proof] #[kani::unwind(6)]
     fn attr_suffix_vs_spec() { with_matcher!(f, m, operand, val, op, {
         let suffix = f.vl >= f.ol && eq_cs(&val[f.vl - f.ol..], op, f.ci);
-        assert!(m.has_attr_with_suffix(&operand) == (f.vl > 0 && suffix)); }) }
+        assert!(m.has_attr_with_suffix(&operand) == (f.ol > 0 && suffix)); }) }
     // [a|=v]: exactly v, or v followed by '-'
     #[kani::proof] #[kani::unwind(6)]
     fn attr_dash_vs_spec() { with_matcher!(f, m, operand, val, op, {
@@ -74,11 +74,11 @@ mod verif_kani_attr {
     // [a~=v]: one of the whitespace-separated words equals v
     #[kani::proof] #[kani::unwind(6)]
     fn attr_word_vs_spec() { with_matcher!(f, m, operand, val, op, {
-        let mut word = false;
+        let mut word = false;   // v non-empty (CSS: an empty v represents nothing)
         let mut start = 0;
         let mut j = 0;
         while j <= f.vl {
-            if j == f.vl || is_attr_whitespace(val[j]) { if eq_cs(&val[start..j], op, f.ci) { word = true; } start = j + 1; }
+            if j == f.vl || is_attr_whitespace(val[j]) { if f.ol > 0 && eq_cs(&val[start..j], op, f.ci) { word = true; } start = j + 1; }
             j += 1;
         }
         assert!(m.matches_splitted_by_whitespace(&operand) == word); }) }
